@@ -15,5 +15,7 @@ for f in ("Blocks.txt", "CompatBlocks.txt"):
         name = name.strip()
         blocks.append({"name": [ord(c) for c in name.replace(" ", "").replace("_", "")],
                        "raw": name, "lo": int(a, 16), "hi": int(b, 16)})
-json.dump({"blocks": blocks}, open(out, "w"), separators=(",", ":"))
+tmp = out + ".%d.tmp" % os.getpid()
+json.dump({"blocks": blocks}, open(tmp, "w"), separators=(",", ":"))
+os.replace(tmp, out)                      # atomic: another check may be reading the file
 print(len(blocks), "blocks")
